@@ -34,7 +34,7 @@ def dataframe_to_symbols(table: 'pandas.DataFrame') -> List[Symbol]:  # noqa: F8
 
     def convert_to_int_or_none(field: Any) -> Optional[int]:
         """Convert NaNs to `None`; `int` otherwise."""
-        if np.isnan(field):
+        if field is None or np.isnan(field):
             return None
         return int(field)
 
